@@ -76,6 +76,25 @@ const maxCallLog = 200
 
 var errInjected = errors.New("verif: injected I/O failure")
 
+// injectedError is an injected failure that also wraps an end-of-file class error, as a transport may
+// report a broken connection ("connection reset: unexpected EOF"): it is a failure, not the end of the data.
+type injectedError struct{ wrap error }
+
+func (e *injectedError) Error() string        { return "verif: injected I/O failure: " + e.wrap.Error() }
+func (e *injectedError) Is(target error) bool { return target == errInjected }
+func (e *injectedError) Unwrap() error        { return e.wrap }
+
+// injected returns the injected failure of the given kind: 0 plain, 1 wraps io.EOF, 2 wraps io.ErrUnexpectedEOF.
+func injected(kind int) error {
+	switch kind {
+	case 1:
+		return &injectedError{io.EOF}
+	case 2:
+		return &injectedError{io.ErrUnexpectedEOF}
+	}
+	return errInjected
+}
+
 // recSink records every Write call made on it; the failAt-th call (1-based) fails.
 type recSink struct {
 	mu      sync.Mutex // a concurrent Writer writes from its ordering goroutine
@@ -142,6 +161,7 @@ type fragReader struct {
 	failAt  int
 	calls   int
 	delay   time.Duration // slow source
+	kind    int           // kind of the injected failure (see injected)
 }
 
 func srcPos(f *fragReader) int {
@@ -163,7 +183,7 @@ func (f *fragReader) Read(p []byte) (int, error) {
 	defer f.mu.Unlock()
 	f.calls++
 	if f.failAt > 0 && f.calls >= f.failAt {
-		return 0, errInjected
+		return 0, injected(f.kind)
 	}
 	if len(p) == 0 {
 		return 0, nil
@@ -340,13 +360,14 @@ func runWriter(o wopts, input []byte, calls []wcall, sink *recSink, blocks *[]in
 // Reader side
 
 type rcfg struct {
-	Conc   int    `json:"conc"`
-	Mode   string `json:"mode"` // read | writeto
-	Bufs   []int  `json:"bufs,omitempty"`
-	Frag   []int  `json:"frag,omitempty"`
-	EOFw   bool   `json:"eofw,omitempty"`
-	FailAt int    `json:"failat,omitempty"`
-	Extra  int    `json:"extra,omitempty"` // additional Read calls after the end (lifecycle)
+	Conc     int    `json:"conc"`
+	Mode     string `json:"mode"` // read | writeto
+	Bufs     []int  `json:"bufs,omitempty"`
+	Frag     []int  `json:"frag,omitempty"`
+	EOFw     bool   `json:"eofw,omitempty"`
+	FailAt   int    `json:"failat,omitempty"`
+	FailKind int    `json:"failkind,omitempty"` // 0 plain error, 1 wraps io.EOF, 2 wraps io.ErrUnexpectedEOF
+	Extra    int    `json:"extra,omitempty"`    // additional Read calls after the end (lifecycle)
 	// Prime: a slow consumer.  Read mode: Read(nil) first (it starts the pipeline and returns), then wait
 	// this many microseconds; WriteTo mode: every Write of the sink takes this long.
 	Prime int `json:"prime,omitempty"`
@@ -433,7 +454,7 @@ var afterPreLife func()
 func runReaderDelay(data []byte, cfg rcfg, watchdog time.Duration, outLimit int, delay time.Duration) robs {
 	base := lz4Goroutines()
 	done := make(chan robs, 1)
-	src := &fragReader{data: data, pattern: cfg.Frag, eofWith: cfg.EOFw, failAt: cfg.FailAt, delay: delay}
+	src := &fragReader{data: data, pattern: cfg.Frag, eofWith: cfg.EOFw, failAt: cfg.FailAt, delay: delay, kind: cfg.FailKind}
 	go func() {
 		var o robs
 		defer func() {
